@@ -38,7 +38,7 @@
 (* machine along the recorded events.                                      *)
 (***************************************************************************)
 EXTENDS C08_Env, Json
-CONSTANTS Merge, MaxOps, NTrees, NKw, WithPut, Filter
+CONSTANTS Merge, MaxOps, NPairs, NTrees, NKw, WithPut, Filter
 VARIABLES own, heap, dflt, hist, wrong, init, sv
 
 x == V("x")  y == V("y")  z == V("z")  bb == V("b")
@@ -61,20 +61,20 @@ HTrees == <<
   N("Sum", << B("Quotient", y, z), B("Power", x, KI(2)) >>) >>
 
 NSlots == 2
-MapPairs == {
+MapPairs == <<
   << << NX(Y1) >>, << >> >>,
   << << NX(y) >>, << VX(z) >> >>,
   << << ES1(z), NY(KI(2)) >>, << NX(y), NY(x) >> >>,
   << << NX(KI(0)) >>, << NX(KI(0)) >> >>,      \* equal contents, two objects
   << << >>, << NameEntry("f", gg) >> >>,
-  << << NX(Y1), ELP(y) >>, << NZ(x) >> >> }
+  << << NX(Y1), ELP(y) >>, << NZ(x) >> >> >>
 
 KwSeq == << << >>, << NZ(X2) >>, << NY(x) >>, << NX(z) >>, << NZ(KI(1)), NY(x) >> >>
 PutEntries == { NZ(y), ES1(x) }
 
 
 \* ---- the state machine ---------------------------------------------------------------
-Init == /\ init \in MapPairs
+Init == /\ init \in { MapPairs[i] : i \in 1..NPairs }
         /\ own = init /\ heap = init /\ dflt = << >>
         /\ hist = << >> /\ wrong = FALSE
         /\ sv \in {"s", "q"}          \* which mapper class this history's substitute() calls use
